@@ -109,6 +109,38 @@ def rule_G2(ctx: Ctx) -> None:
             else:
                 ctx.violation(f, slot, "mazes are mutated only in a fresh copy of the dataset",
                               "the filter mutates maze objects that still belong to its input", node=loop)
+    exp_m = ("the returned dataset owns its maze objects: the whole dataset is deep-copied, or its maze list is built from deep copies "
+             "(a result that shares maze objects with the input lets the documented in-place metadata collection on the *result* "
+             "strip generation_meta from the *input's* mazes)")
+
+    def mazes_fresh(e: ast.AST, fn: ast.AST, depth: int = 0) -> bool:
+        if depth > 6 or e is None:
+            return False
+        if isinstance(e, ast.Name):
+            defs = X.assignments_to(fn, e.id)
+            return bool(defs) and all(mazes_fresh(d, fn, depth + 1) for d in defs)
+        if isinstance(e, ast.Call):
+            if dotted_of(e.func) in X.DEEPCOPY:
+                return True
+            mz = N.kwarg(e, "mazes")
+            if mz is None:
+                return False
+            if isinstance(mz, ast.Call) and dotted_of(mz.func) in X.DEEPCOPY:
+                return True
+            if isinstance(mz, ast.Name):
+                return mazes_fresh_list(mz, fn, depth + 1)
+            return mazes_fresh_list(mz, fn, depth + 1)
+        return False
+
+    def mazes_fresh_list(e: ast.AST, fn: ast.AST, depth: int) -> bool:
+        if isinstance(e, ast.Name):
+            defs = X.assignments_to(fn, e.id)
+            return bool(defs) and all(mazes_fresh_list(d, fn, depth + 1) for d in defs) and depth < 6
+        if isinstance(e, ast.Call) and dotted_of(e.func) in X.DEEPCOPY:
+            return True
+        ew = X.elementwise(e)
+        return ew is not None and isinstance(ew[0], ast.Call) and dotted_of(ew[0].func) in X.DEEPCOPY
+
     # maze-filter wrapper
     f, w = _wrapper(ctx, f"{MD}.register_maze_filter")
     rets = X.returns_of(w)
@@ -116,11 +148,17 @@ def rule_G2(ctx: Ctx) -> None:
         fresh = r.value is not None and X.is_fresh(r.value, w)
         ctx.judge(f, fresh, {"return": X.U(r.value), "fresh": fresh}, exp,
                   "maze-filter results share their cfg with the input dataset", node=r)
+        mf = r.value is not None and mazes_fresh(r.value, w)
+        ctx.judge(f, mf, {"return": X.U(r.value), "owns_its_mazes": mf}, exp_m,
+                  "maze-filter results share maze objects with the input dataset: collecting metadata on the result disturbs the input", node=r)
     # custom_maze_filter
     f = ctx.index.func(f"{MD}.MazeDataset.custom_maze_filter")
     for r in X.returns_of(f.node):
         fresh = r.value is not None and X.is_fresh(r.value, f.node)
         ctx.judge(f, fresh, {"return": X.U(r.value), "fresh": fresh}, exp, "custom filter result shares cfg with the input", node=r)
+        mf = r.value is not None and mazes_fresh(r.value, f.node)
+        ctx.judge(f, mf, {"return": X.U(r.value), "owns_its_mazes": mf}, exp_m,
+                  "custom filter results share maze objects with the input dataset: collecting metadata on the result disturbs the input", node=r)
 
 
 def _append_sites(fn_node: ast.AST) -> list[ast.Call]:
@@ -408,6 +446,12 @@ def rule_G6(ctx: Ctx) -> None:
     ctx.judge(f, ok, {"store": X.U(fin[0])[:120] if fin else None}, "collected metadata = {key: dict(counter)} over all keys")
 
 
+def rule_G7(ctx: Ctx) -> None:
+    "config-driven application = application by hand: every saved filter applied, in order, none skipped (C04.E5 re-judged)"
+    from sa.rules.c04 import rule_E5
+    rule_E5(ctx)
+
+
 RULES = [
     Rule("C08.G1", rule_G1, floor=9, doc="registry discipline"),
     Rule("C08.G2", rule_G2, floor=9, doc="copy discipline"),
@@ -415,4 +459,5 @@ RULES = [
     Rule("C08.G4", rule_G4, floor=3, doc="provenance record schema: writer keys >= reader keys"),
     Rule("C08.G5", rule_G5, floor=9, doc="filter predicates"),
     Rule("C08.G6", rule_G6, floor=4, doc="metadata counts"),
+    Rule("C08.G7", rule_G7, floor=3, doc="filters of a configuration are all applied, in order (re-judged C04.E5)"),
 ]
